@@ -59,6 +59,7 @@ func uiSessions(tier string) []uiSession {
 		{1, []string{"m 1 2"}, dis, false, 24},                              // after an instruction move (accepted or not)
 		{2, []string{"m 0 6"}, dis, false, 24},                              // after a block move
 		{1, []string{"d 6"}, dis, false, 7},                                 // cursor near the end, small screen
+		{1, []string{"g 10"}, dis, false, 24},                               // cursor on the last line
 		{0, []string{"d 1", "e"}, emu, true, 24},                            // emulator, nothing executed
 		{0, []string{"d 1", "e", "s", "5"}, emu, false, 24},                 // after one step (x1 typed in)
 		{2, []string{"d 3", "e", "s", "5", "7"}, emu, false, 12},            // after add x3,x1,x2
